@@ -139,7 +139,8 @@ def to_map_real(chk, ex):
               ('number', [('x-a', 'str', a), ('x-n', 'u32', z3.BitVec('n', 32))], False), ('bool', [('x-f', 'bool', z3.Bool('flag'))], False),
               ('none', [('x-a', 'str', a), ('x-o', 'none', None)], False), ('some', [('x-o', 'some', SerValue('str', b_))], False), ('seq', [('x-s', 'seq', None)], False),
               ('nested', [('x-i', 'struct', None)], False)]
-    local = [(r'^<T as Serialize>::serialize::<', m_derived_serialize)]
+    size_t = z3.BitVec('size_of_the_header_struct', 64)      # nothing is known about the memory size of a header type (it can be zero)
+    local = [(r'^<T as Serialize>::serialize::<', m_derived_serialize), (r'^(std::|core::)?mem::size_of::<T>$', lambda ex, a, c: size_t)]
     for name, fields, flat in shapes:
         saved = ex.models
         ex.models = local + [m for m in ex.models if not ('to_map' in m[0] and len(m) > 2)]
@@ -172,9 +173,11 @@ def to_map_real(chk, ex):
                             L = m.eval(StrLen(v.term), model_completion=True).as_long()
                             vals.append('v' * min(L, 8))
                     case = {'op': 'response_headers', 'declared': [k_ for k_, _, _ in fields][:2], 'explicit': [], 'declared_values': vals[:2]}
+                    if m.eval(size_t, model_completion=True).as_long() == 0 and fields:
+                        case = {'op': 'response_headers', 'declared': [], 'explicit': [], 'zero_sized': True}
                     if len(fields) == 2 and fields[0][0] == 'x-b': case['declared_values'] = vals[::-1]; case['declared'] = ['x-a', 'x-b']
                     nat = replay([case])[0]
-                    chk.counterexample(f'to_map({name}) returned {r}; declared headers {list(zip(case["declared"], case["declared_values"]))} -> native {nat}', case,
+                    chk.counterexample(f'to_map({name}) returned {r}; declared headers {"of a zero-sized header struct" if case.get("zero_sized") else list(zip(case["declared"], case["declared_values"]))} -> native {nat}', case,
                                        not nat.get('as_specified', False), role='to_map')
             else:
                 m = chk.prove(f'to_map/{name}/refused', pc, z3.BoolVal(r.discr != 1))
